@@ -388,6 +388,23 @@ def equal(I, a, b, st, node=None):
         return to_z3int(a) == to_z3int(b)
     if isinstance(a, str) and isinstance(b, str):
         return a == b
+    if isinstance(a, SymSeq) and a.kind == "str" and isinstance(b, str):
+        a, b = b, a
+    if isinstance(a, str) and isinstance(b, SymSeq) and b.kind == "str":
+        if is_sym(b.length):
+            r = to_z3int(b.length) == len(a)
+            for k, c in enumerate(a):
+                r = z3.And(r, b.at(k) == ord(c))
+            return r
+        return str_equal(b, a)
+    if isinstance(a, SymChar) or isinstance(b, SymChar):
+        if isinstance(b, SymChar):
+            a, b = b, a
+        if isinstance(b, SymChar):
+            return a.code == b.code
+        if isinstance(b, str):
+            return (a.code == ord(b)) if len(b) == 1 else False
+        return False
     if isinstance(a, Rope) or isinstance(b, Rope):
         if isinstance(a, (bytes, SymBytes, SymSeq, Rope)) and isinstance(b, (bytes, SymBytes, SymSeq, Rope)):
             return rope_equal(I, a, b, st, node)
@@ -450,6 +467,8 @@ def equal(I, a, b, st, node=None):
 
 def contains(I, container, item, st, node=None):
     if isinstance(container, str):
+        if isinstance(item, SymChar):
+            return V(z3.Or(*[item.code == ord(c) for c in container]) if container else False, st)
         if isinstance(item, str):
             return V(item in container, st)
         if item is None:
@@ -515,6 +534,17 @@ def group_lookup(I, d: dict, key, st):
     return out
 
 
+def str_equal(seq, text):
+    """symbolic string (concrete length) == concrete text"""
+    if seq.length != len(text):
+        return False
+    r = True
+    for k, c in enumerate(text):
+        e = seq.at(k) == ord(c)
+        r = e if r is True else z3.And(r, e)
+    return r
+
+
 def keys_cond(key, ks):
     ks = sorted(ks)
     runs = []
@@ -531,6 +561,21 @@ def do_getitem(I, c, i, st, node=None):
     if isinstance(c, Ref):
         o = I.hget(st, c)
         if isinstance(o, HDict):
+            if isinstance(i, SymSeq) and not is_sym(i.length):
+                out = []
+                conds = []
+                for k, v in o.items.items():
+                    if isinstance(k, (str, bytes)) and len(k) == i.length:
+                        cond = equal(I, i, k if isinstance(k, bytes) else k.encode("latin-1"), st, node) if i.kind == "bytes" else str_equal(i, k)
+                        conds.append(cond)
+                        for b, s2 in I.split(cond, st.fork()):
+                            if b:
+                                out.append(("val", v, s2))
+                miss = z3.Not(z3.Or(*conds)) if conds else True
+                for b, s2 in I.split(miss, st.fork()):
+                    if b:
+                        out.append(("exc", I.mkexc("KeyError", "symbolic key"), s2))
+                return out
             if is_sym(i):
                 return group_lookup(I, o.items, to_z3int(i), st)
             try:
@@ -704,9 +749,12 @@ def do_slice(I, c, lo, hi, step, st, node=None):
         n = c.length
         a = clamp_index(I, lo, n, 0, st)
         b = clamp_index(I, hi, n, n, st)
+        if not is_sym(a) and not is_sym(b) and not is_sym(c.off):
+            return V(SymSeq(c.arr, c.off + a, max(0, b - a), c.kind), st)
         za, zb = to_z3int(a), to_z3int(b)
         ln = z3.simplify(z3.If(zb > za, zb - za, 0))
-        return V(SymSeq(c.arr, z3.simplify(to_z3int(c.off) + za), ln, c.kind), st)
+        off = z3.simplify(to_z3int(c.off) + za)
+        return V(SymSeq(c.arr, off.as_long() if z3.is_int_value(off) else off, ln.as_long() if z3.is_int_value(ln) else ln, c.kind), st)
     raise Unsupported(f"slice of {c!r}", node)
 
 
@@ -990,6 +1038,17 @@ def call_builtin(I, f, args, kwargs, st, node=None):
         v = args[0]
         val = v % (1 << bits) if not is_sym(v) else z3.simplify(to_z3int(v) % (1 << bits))
         return V(I.alloc(st, HInst("<ctypes>", {"value": val})), st)
+    if name == "re.compile":
+        return V(I.alloc(st, HInst("<regex>", {"pattern": args[0]})), st)
+    if name == "regex.match":
+        return regex_match(I, recv, args[0], st, node)
+    if name == "match.group":
+        mo = I.hget(st, recv).fields
+        key = args[0] if args else 0
+        groups = mo["groups"]
+        if key not in groups:
+            return E(I, "IndexError", st, "no such group")
+        return V(groups[key], st)
     if name == "sys.exit":
         return [("exc", ExcVal("SystemExit", (args[0] if args else None,)), st)]
     if name == "ast.literal_eval":
@@ -1068,6 +1127,9 @@ def builtin_int(I, args, kwargs, st, node=None):
         # exact when |x| < 2^53 (IEEE-754 double); recorded as a side obligation
         st.side.append(("float-exact: |x| < 2**53 in int(x / c)", list(st.pc), z3.And(num > -(1 << 53), num < (1 << 53))))
         return V(z3.If(num >= 0, num / den, -((-num) / den)), st)
+    if isinstance(v, SymSeq) and v.kind == "str" and base == 16 and not is_sym(v.length):
+        st.assumed.append("int(s, 16) on a symbolic string assumes s consists of hex digits (guaranteed by the regex group it comes from)")
+        return V(hex_value_of(v), st)
     if isinstance(v, str):
         try:
             return V(int(v, base) if base is not None else int(v), st)
@@ -1210,6 +1272,10 @@ def model_attr(I, ref, o, attr, st, node=None):
     """Attributes of model instances (class names in <...>): files, ctypes values, argparse namespaces."""
     if o.cls in ("<file>",):
         return V(BuiltinVal(f"file.{attr}", ref), st)
+    if o.cls == "<regex>":
+        return V(BuiltinVal(f"regex.{attr}", ref), st)
+    if o.cls == "<match>":
+        return V(BuiltinVal(f"match.{attr}", ref), st)
     raise Unsupported(f"attribute {attr} of model object {o.cls}", node)
 
 
@@ -1280,3 +1346,60 @@ def file_method(I, meth, recv, args, kwargs, st, node=None):
         if isinstance(data, str):
             return V(I.alloc(st, HList(data.splitlines(keepends=True))), st)
     raise Unsupported(f"file method {meth}", node)
+
+
+# ---------------------------------------------------------------------------------------------- regular expressions
+JOKER_PATTERN = r"^\[0x(?P<byte>[0-9a-fA-F]+)]"
+
+
+def is_hex_digit(c):
+    return z3.Or(z3.And(c >= 48, c <= 57), z3.And(c >= 65, c <= 70), z3.And(c >= 97, c <= 102))
+
+
+def regex_match(I, recv, subject, st, node=None):
+    """re.Pattern.match: on a concrete subject the real `re` module decides; on a symbolic subject only the escape pattern
+    `^\\[0x(?P<byte>[0-9a-fA-F]+)]` of script.Table is modelled (prefix "[0x", a maximal run of hex digits, "]")."""
+    import re as _re
+    pattern = I.hget(st, recv).fields["pattern"]
+    if isinstance(subject, str):
+        m = _re.compile(pattern).match(subject)
+        if m is None:
+            return V(None, st)
+        groups = {0: m.group(0)}
+        for k, v in m.groupdict().items():
+            groups[k] = v
+        for i, v in enumerate(m.groups(), 1):
+            groups[i] = v
+        return V(I.alloc(st, HInst("<match>", {"groups": groups})), st)
+    if pattern != JOKER_PATTERN or not isinstance(subject, SymSeq) or is_sym(subject.length):
+        raise Unsupported(f"regex match of {pattern!r} on a symbolic subject", node)
+    n = subject.length
+    out = []
+    ch = [subject.at(i) for i in range(n)]
+    head = z3.And(ch[0] == 91, ch[1] == 48, ch[2] == 120) if n >= 5 else None
+    nomatch = []
+    if head is not None:
+        for k in range(1, n - 3):  # k hex digits at 3..3+k-1, then "]" at 3+k ; the run is maximal because "]" is not a hex digit
+            cond = z3.And(head, *[is_hex_digit(ch[3 + j]) for j in range(k)], ch[3 + k] == 93)
+            nomatch.append(cond)
+            for b, s in I.split(cond, st.fork()):
+                if b:
+                    whole = SymSeq(subject.arr, subject.off, 4 + k, "str")
+                    byte = SymSeq(subject.arr, z3.simplify(to_z3int(subject.off) + 3) if is_sym(subject.off) else subject.off + 3, k, "str")
+                    out.append(("val", I.alloc(s, HInst("<match>", {"groups": {0: whole, "byte": byte, 1: byte}})), s))
+    miss = z3.Not(z3.Or(*nomatch)) if nomatch else True
+    for b, s in I.split(miss, st.fork()):
+        if b:
+            out.append(("val", None, s))
+    return out
+
+
+def hex_value_of(seq):
+    """int(s, 16) for a concrete-length symbolic string of hex digits"""
+    n = seq.length
+    v = z3.IntVal(0)
+    for i in range(n):
+        c = seq.at(i)
+        d = z3.If(c <= 57, c - 48, z3.If(c <= 70, c - 55, c - 87))
+        v = v * 16 + d
+    return z3.simplify(v)
